@@ -633,6 +633,11 @@ Proof.
   destruct (existsb _ (w_log w)) eqn:Edup.
   { intros H; inversion H; subst. repeat split; auto; intros; discriminate. }
   destruct (next_child w) as [w1 key] eqn:En.
+  destruct crypto_ok; cbn [negb].
+  2:{ intros H; inversion H; subst; clear H.
+      apply next_child_spec in En as (Hkey & _ & _ & Ho1 & _ & Hc1 & _).
+      split; [intros k m o Hg; now rewrite Ho1|]. split; [exact Hc1|]. split; [discriminate|].
+      intros _ Hn. exfalso. now apply Hn. }
   destruct (next_log_id w1 _) as [w2 id] eqn:El.
   intros H; inversion H; subst; clear H.
   pose proof (next_child_fresh _ _ _ Hf En) as (Hfr & _ & _).
@@ -654,7 +659,7 @@ Proof.
     rewrite E. repeat split; try reflexivity.
     intros k m Hne. rewrite Hget. destruct (okey_eqb o k m) eqn:E2; [|reflexivity].
     exfalso. apply okey_eqb_iff in E2 as [E3 E4]. cbn in E3, E4. subst. now apply Hne.
-  - intros Hnok Hnc. destruct crypto_ok; cbn in Hnok; [discriminate|]. contradiction.
+  - intros Hnok Hnc. cbn in Hnok. discriminate.
 Qed.
 
 (** a second delivery of a slate already received into that account is refused, no effect *)
@@ -1139,6 +1144,16 @@ Proof.
   - exact Hle.
 Qed.
 
+Lemma fresh_next_child w w1 k : Fresh w -> next_child w = (w1, k) -> Fresh w1 /\ child_le w w1.
+Proof.
+  intros [Hfo Hfc] En.
+  assert (Hle : child_le w w1) by (intros x; eapply child_mono_next; eauto).
+  apply next_child_spec in En as (_ & _ & _ & Ho1 & _ & Hc1 & _).
+  split; [split|exact Hle].
+  - intros o Hin. rewrite Ho1 in Hin. apply (key_below_mono w w1); auto.
+  - intros c k0 m v H1 H2. rewrite Hc1 in H1. apply (key_below_mono w w1); eauto.
+Qed.
+
 Lemma receive_fresh w s a t d c :
   Fresh w -> Fresh (fst (receive w s a t d c)) /\ child_le w (fst (receive w s a t d c)).
 Proof.
@@ -1146,6 +1161,7 @@ Proof.
   destruct (check_ttl w t) as [[]|e|q]; cbn [fst]; try (split; [exact Hf|apply child_le_refl]).
   destruct (existsb _ _); cbn [fst]; try (split; [exact Hf|apply child_le_refl]).
   destruct (next_child w) as [w1 key] eqn:En.
+  destruct c; cbn [negb]; [|cbn [fst]; now apply (fresh_next_child w w1 key)].
   match goal with |- context [next_log_id w1 ?p] => destruct (next_log_id w1 p) as [w2 id] eqn:El end.
   cbn [fst].
   pose proof (next_child_fresh _ _ _ Hf En) as (_ & _ & Hkb).
@@ -1548,8 +1564,10 @@ Proof.
   - unfold receive. destruct (check_ttl w ttl) as [[]|e|q]; cbn [fst]; try exact Hn.
     destruct (existsb _ _); cbn [fst]; [exact Hn|].
     destruct (next_child w) as [w1 key] eqn:En.
+    apply next_child_spec in En as (_ & _ & _ & Ho1 & _).
+    destruct crypto_ok; cbn [negb]; [|cbn [fst]; unfold WF; rewrite Ho1; exact Hn].
     match goal with |- context [next_log_id w1 ?p] => destruct (next_log_id w1 p) as [w2 id] eqn:El end.
-    cbn [fst]. apply next_child_spec in En as (_ & _ & _ & Ho1 & _).
+    cbn [fst].
     apply next_log_id_spec in El as (_ & Ho2 & _).
     unfold WF. cbn [w_outs with_log with_outs]. apply nodup_save. rewrite Ho2, Ho1. exact Hn.
   - destruct (lock_tx_cases w slate ttl tip has_tx) as [-> | ->]; [|cbn [fst]; exact Hn].
